@@ -8,6 +8,12 @@ Property theorems only. Model: `Bpmn.Model.Builder` (port of schema/builder.go).
 the k-th `RandBytes` call returns); the layout theorems hold for ANY list of processes (not only built ones),
 any origin and any gaps that are at least the node sizes.
 
+`st : Kind → Bool` is the type switch of `AddActivity` (which activity types it stores). It is a FACT read from the
+source on every run; every theorem here holds for every `st`, as a dichotomy: the full statement holds iff the
+switch stores every activity type (`C19_general`), and for any type it does not store there is an explicit
+witness script (`C19_counterexample_activity_not_stored`). `Props/C19Current.lean` instantiates both sides at
+the extracted switch.
+
 What is NOT here (tested by the harness on the real code, not proved): the XML round trip and the engine run.
 -/
 namespace Bpmn.Props.C19
@@ -45,12 +51,13 @@ instance (p : Proc) : Decidable (flowsClosed p) := by unfold flowsClosed; infer_
 instance (cfg : Cfg) : Decidable (GapsCover cfg) := by unfold GapsCover; infer_instance
 
 /-- the processes a list of scripts builds (each script starts at its own value of the call counter) -/
-abbrev built (o : Nat → Nat) (scripts : List (Nat × Acts)) : List Proc := builtProcs o scripts
+abbrev built (st : Kind → Bool) (o : Nat → Nat) (scripts : List (Nat × Acts)) : List Proc :=
+  builtProcs st o scripts
 
 /-- the scripts run one after the other (`Chained`: each starts where the previous build ended, or later) and
 their preset ids are pairwise distinct across all of them -/
-def Sequential (o : Nat → Nat) (scripts : List (Nat × Acts)) : Prop :=
-  Chained o 0 scripts ∧ (presetsOf scripts).Nodup
+def Sequential (st : Kind → Bool) (o : Nat → Nat) (scripts : List (Nat × Acts)) : Prop :=
+  Chained st o 0 scripts ∧ (presetsOf scripts).Nodup
 
 /-- ids of everything inside the processes (process ids, flow nodes, sequence flows) -/
 def procIds (procs : List Proc) : List Id := procs.flatMap Proc.ids
@@ -69,32 +76,29 @@ def LayoutOk (o : Nat → Nat) (cfg : Cfg) (n : Nat) (procs : List Proc) : Prop 
   -- no two shapes overlap
   (GapsCover cfg → r.1.Pairwise (fun s t => disjoint s t = true))
 
-/-- the full statement of C19 on the model, kept visible: for EVERY activity type -/
-def C19_statement : Prop :=
+/-- C19 on the model whose `AddActivity` stores the kinds `st`, for the activity kinds satisfying `ok` -/
+def C19_for (st : Kind → Bool) (ok : Kind → Prop) : Prop :=
   ∀ (o : Nat → Nat), Injective o →
     -- (a) every process the process builder hands out is well-formed
-    (∀ (n : Nat) (acts : Acts), (∀ a ∈ acts, isActivity a.1) → presetsDistinct acts →
-        WellFormed (buildProcess o n acts).1) ∧
+    (∀ (n : Nat) (acts : Acts), (∀ a ∈ acts, ok a.1) → presetsDistinct acts →
+        WellFormed (buildProcess st o n acts).1) ∧
     -- (b) processes built one after the other share no id and are laid out correctly under every configuration
     (∀ (cfg : Cfg) (n : Nat) (scripts : List (Nat × Acts)),
-        (∀ sc ∈ scripts, ∀ a ∈ sc.2, isActivity a.1) → Sequential o scripts →
-        (procIds (built o scripts)).Nodup ∧ LayoutOk o cfg n (built o scripts))
+        (∀ sc ∈ scripts, ∀ a ∈ sc.2, ok a.1) → Sequential st o scripts →
+        (procIds (built st o scripts)).Nodup ∧ LayoutOk o cfg n (built st o scripts))
 
-/-- the same with the hypothesis that excludes the witness below: only activity types `AddActivity` stores -/
-def C19_statement_stored : Prop :=
-  ∀ (o : Nat → Nat), Injective o →
-    (∀ (n : Nat) (acts : Acts), (∀ a ∈ acts, actOk a.1) → presetsDistinct acts →
-        WellFormed (buildProcess o n acts).1) ∧
-    (∀ (cfg : Cfg) (n : Nat) (scripts : List (Nat × Acts)),
-        (∀ sc ∈ scripts, ∀ a ∈ sc.2, actOk a.1) → Sequential o scripts →
-        (procIds (built o scripts)).Nodup ∧ LayoutOk o cfg n (built o scripts))
+/-- the full statement of C19 on the model, kept visible: for EVERY activity type -/
+def C19_statement (st : Kind → Bool) : Prop := C19_for st isActivity
+
+/-- the same restricted to the activity types the switch stores -/
+def C19_statement_stored (st : Kind → Bool) : Prop := C19_for st (actOk st)
 
 /-! ## (a) the process builder -/
 
 /-- for build scripts of any length over the stored activity types, with or without preset ids, and every
 injective id oracle: ids unique, flow ends exist and list the flow, start without incoming, end without outgoing -/
-theorem process_wellformed (o : Nat → Nat) (hinj : Injective o) (n : Nat) (acts : Acts)
-    (hok : ∀ a ∈ acts, actOk a.1) (hpre : presetsDistinct acts) : WellFormed (buildProcess o n acts).1 := by
+theorem process_wellformed (st : Kind → Bool) (o : Nat → Nat) (hinj : Injective o) (n : Nat) (acts : Acts)
+    (hok : ∀ a ∈ acts, actOk st a.1) (hpre : presetsDistinct acts) : WellFormed (buildProcess st o n acts).1 := by
   obtain ⟨wf, _⟩ := buildProcess_wf hinj n acts hok hpre
   exact ⟨wf.nodup, wf.flows, wf.startIn, wf.endOut⟩
 
@@ -108,18 +112,27 @@ theorem wellformed_flowsClosed {p : Proc} (h : WellFormed p) : flowsClosed p := 
   obtain ⟨⟨s, hs, hsrc, _⟩, ⟨t, ht, htgt, _⟩⟩ := h.2.1 f hf
   exact ⟨List.mem_map.mpr ⟨s, hs, hsrc⟩, List.mem_map.mpr ⟨t, ht, htgt⟩⟩
 
-/-- the model violates C19 for the activity types outside the type switch of `AddActivity`: the activity is
-linked but not stored, both flows dangle -/
-theorem activity_not_stored_dangling :
-    ¬ WellFormed (buildProcess (fun k => k) 0 [(Kind.transaction, none)]).1 := by
-  intro h
-  have := wellformed_flowsClosed h
+theorem addActivity_unstored (st : Kind → Bool) (o : Nat → Nat) (n : Nat) (b : PB) (k : Kind) (pre : Option Nat)
+    (h : st k = false) : addActivity st o n b k pre = addActivity (fun _ => false) o n b k pre := by
+  unfold addActivity; simp [h]
+
+theorem buildProcess_unstored (st : Kind → Bool) (o : Nat → Nat) (n : Nat) (k : Kind) (h : st k = false) :
+    buildProcess st o n [(k, none)] = buildProcess (fun _ => false) o n [(k, none)] := by
+  simp only [buildProcess, addAll, addActivity_unstored st o _ _ k none h]
+
+/-- the model violates C19 for ANY activity type outside the type switch of `AddActivity`: the activity is linked
+but not stored, both flows dangle. Witness script: that one activity. -/
+theorem activity_not_stored_dangling (st : Kind → Bool) (k : Kind) (h : st k = false) :
+    ¬ WellFormed (buildProcess st (fun k => k) 0 [(k, none)]).1 := by
+  intro hw
+  have := wellformed_flowsClosed hw
+  rw [buildProcess_unstored st _ 0 k h] at this
   revert this
-  decide
+  cases k <;> decide
 
 /-- …and the ids really must come from an injective oracle: with a repeating one two flows share their id -/
 theorem duplicate_generated_id_witness :
-    ¬ WellFormed (buildProcess (fun _ => 0) 0 [(Kind.task, none)]).1 := by
+    ¬ WellFormed (buildProcess (fun _ => true) (fun _ => 0) 0 [(Kind.task, none)]).1 := by
   intro h
   have := h.1
   revert this
@@ -282,9 +295,9 @@ theorem sublist_flatMap {α β : Type} (f g : α → List β) (h : ∀ a, (f a).
 
 /-- processes built one after the other (any number of them, any scripts over the stored types) share no id:
 process ids, flow node ids and sequence flow ids are pairwise distinct across the whole definitions -/
-theorem sequential_ids_unique (o : Nat → Nat) (hinj : Injective o) (scripts : List (Nat × Acts))
-    (hok : ∀ sc ∈ scripts, ∀ a ∈ sc.2, actOk a.1) (hseq : Sequential o scripts) :
-    (procIds (built o scripts)).Nodup :=
+theorem sequential_ids_unique (st : Kind → Bool) (o : Nat → Nat) (hinj : Injective o) (scripts : List (Nat × Acts))
+    (hok : ∀ sc ∈ scripts, ∀ a ∈ sc.2, actOk st a.1) (hseq : Sequential st o scripts) :
+    (procIds (built st o scripts)).Nodup :=
   (built_ids_nodup hinj scripts 0 hseq.1 hok hseq.2).1
 
 theorem nodeIds_nodup_of_procIds {procs : List Proc} (h : (procIds procs).Nodup) : (nodeIds procs).Nodup := by
@@ -305,41 +318,52 @@ theorem presets_distinct_of_all : ∀ (scripts : List (Nat × Acts)), (presetsOf
     · exact h.1
     · exact ih h.2.1 sc hsc'
 
-/-- C19 under the hypothesis that every added activity is of a type `AddActivity` stores -/
-theorem C19_holds_partial : C19_statement_stored := by
+/-- C19 for the activity types `AddActivity` stores — whatever the switch is -/
+theorem C19_holds_partial (st : Kind → Bool) : C19_statement_stored st := by
   intro o hinj
-  refine ⟨fun n acts hok hpre => process_wellformed o hinj n acts hok hpre, ?_⟩
+  refine ⟨fun n acts hok hpre => process_wellformed st o hinj n acts hok hpre, ?_⟩
   intro cfg n scripts hok hseq
-  have hids := sequential_ids_unique o hinj scripts hok hseq
+  have hids := sequential_ids_unique st o hinj scripts hok hseq
   refine ⟨hids, ?_⟩
   apply layoutOk_of_wellformed o cfg n _ (nodeIds_nodup_of_procIds hids)
   intro p hp
   obtain ⟨sc, hsc', rfl⟩ := List.mem_map.mp hp
-  exact wellformed_flowsClosed (process_wellformed o hinj sc.1 sc.2 (hok sc hsc') (presets_distinct_of_all scripts hseq.2 sc hsc'))
+  exact wellformed_flowsClosed
+    (process_wellformed st o hinj sc.1 sc.2 (hok sc hsc') (presets_distinct_of_all scripts hseq.2 sc hsc'))
 
-/-- the full statement fails on the faithful model: `AddActivity(&schema.Transaction{})` -/
-theorem C19_counterexample_activity_not_stored : ¬ C19_statement := by
+/-- positive side of the dichotomy: a switch that stores every activity type gives the full statement -/
+theorem C19_general (st : Kind → Bool) (hall : ∀ k, isActivity k → st k = true) : C19_statement st := by
+  intro o hinj
+  obtain ⟨h1, h2⟩ := C19_holds_partial st o hinj
+  have up : ∀ k, isActivity k → actOk st k := fun k hk => ⟨hall k hk, hk.1, hk.2⟩
+  exact ⟨fun n acts hok hpre => h1 n acts (fun a ha => up _ (hok a ha)) hpre,
+    fun cfg n scripts hok hseq => h2 cfg n scripts (fun sc hsc a ha => up _ (hok sc hsc a ha)) hseq⟩
+
+/-- negative side: for ANY activity type the switch does not store the full statement fails on the faithful
+model, with the explicit witness `AddActivity(<one activity of that type>)` -/
+theorem C19_counterexample_activity_not_stored (st : Kind → Bool) (k : Kind) (hk : isActivity k)
+    (hst : st k = false) : ¬ C19_statement st := by
   intro h
-  have := (h (fun k => k) (fun _ _ h => h)).1 0 [(Kind.transaction, none)]
-    (by intro a ha; simp only [List.mem_singleton] at ha; subst ha; exact ⟨by decide, by decide⟩)
+  have := (h (fun k => k) (fun _ _ h => h)).1 0 [(k, none)]
+    (by intro a ha; simp only [List.mem_singleton] at ha; subst ha; exact hk)
     (by simp [presetsDistinct])
-  exact activity_not_stored_dangling this
+  exact activity_not_stored_dangling st k hst this
 
 /-! Non-vacuity: the hypotheses are satisfiable, and the objects are not trivial (tests, not the claim). -/
 example : Injective (fun k => k) := fun _ _ h => h
-example : ∀ a ∈ ([(Kind.task, none), (Kind.subProcess, some 1), (Kind.userTask, some 2)] : Acts), actOk a.1 := by decide
+example : ∀ a ∈ ([(Kind.task, none), (Kind.subProcess, some 1), (Kind.userTask, some 2)] : Acts), actOk (fun _ => true) a.1 := by decide
 example : presetsDistinct [(Kind.task, none), (Kind.subProcess, some 1), (Kind.userTask, some 2)] := by decide
 example : GapsCover ⟨768, 768, 1440, 960, 1440, 8⟩ := by decide
-example : Sequential (fun k => k) [(1, [(Kind.task, none)]), (9, [(Kind.userTask, some 1)])] :=
+example : Sequential (fun _ => true) (fun k => k) [(1, [(Kind.task, none)]), (9, [(Kind.userTask, some 1)])] :=
   ⟨⟨by decide, by decide, trivial⟩, by decide⟩
-example : (buildProcess (fun k => k) 0 [(Kind.task, none), (Kind.userTask, some 2)]).1.flows.length = 3 := by decide
-example : (nodeIds [(buildProcess (fun k => k) 0 [(Kind.task, none), (Kind.userTask, some 2)]).1]).Nodup := by decide
-example : flowsClosed (buildProcess (fun k => k) 0 [(Kind.task, none), (Kind.userTask, some 2)]).1 := by decide
+example : (buildProcess (fun _ => true) (fun k => k) 0 [(Kind.task, none), (Kind.userTask, some 2)]).1.flows.length = 3 := by decide
+example : (nodeIds [(buildProcess (fun _ => true) (fun k => k) 0 [(Kind.task, none), (Kind.userTask, some 2)]).1]).Nodup := by decide
+example : flowsClosed (buildProcess (fun _ => true) (fun k => k) 0 [(Kind.task, none), (Kind.userTask, some 2)]).1 := by decide
 -- the default configuration in units of 1/8: end event, start event, task (flow element order) in one row
 example : ((layoutAll (fun k => k) ⟨768, 768, 1440, 960, 1440, 8⟩ 100 768
-      [(buildProcess (fun k => k) 0 [(Kind.task, none)]).1]).1.map (fun s => (s.x, s.y, s.w, s.h))) =
+      [(buildProcess (fun _ => true) (fun k => k) 0 [(Kind.task, none)]).1]).1.map (fun s => (s.x, s.y, s.w, s.h))) =
     [(3648, 624, 288, 288), (768, 624, 288, 288), (2208, 448, 800, 640)] := by decide
-example : walk (buildProcess (fun k => k) 0 [(Kind.task, none), (Kind.userTask, some 2)]).1 10 (Id.gen .event 1)
+example : walk (buildProcess (fun _ => true) (fun k => k) 0 [(Kind.task, none), (Kind.userTask, some 2)]).1 10 (Id.gen .event 1)
     = [Id.gen .activity 2, Id.preset 2] := by decide
 
 end Bpmn.Props.C19
